@@ -38,6 +38,10 @@ def render_term(t):
 
 
 def render_lit(l):
+    if l[0] == "agg":
+        # ("agg", op, resultvar, target-term-or-None, inner-atom-literal)
+        tgt = "" if l[1] == "count" else " " + render_term(l[3])
+        return "%s = %s%s : { %s }" % (l[2], l[1], tgt, render_lit(l[4]))
     if l[0] == "atom":
         return "%s(%s)" % (l[1], ",".join(render_term(t) for t in l[2]))
     if l[0] == "not":
@@ -107,6 +111,23 @@ def derive(rule, db):
             for e in envs:
                 if not any(match(l[2], tup, e) is not None for tup in rows):
                     nxt.append(e)
+        elif l[0] == "agg":
+            op, res, tgt, inner = l[1], l[2], l[3], l[4]
+            rows = db.get(inner[1], ())
+            for e in envs:
+                ms = [m for m in (match(inner[2], tup, e) for tup in rows) if m is not None]
+                if op == "count":
+                    v = len(ms)
+                else:
+                    vals = [ev_term(tgt, m) for m in ms]
+                    if not vals and op in ("min", "max"):
+                        continue  # min/max over the empty set yields no tuple
+                    v = sum(vals) if op == "sum" else min(vals) if op == "min" else max(vals)
+                e2 = dict(e)
+                if res in e2 and e2[res] != v:
+                    continue
+                e2[res] = v
+                nxt.append(e2)
         else:
             for e in envs:
                 if OPS[l[1]](ev_term(l[2], e), ev_term(l[3], e)):
@@ -178,9 +199,22 @@ def gen_c10(seed, size="quick"):
     dom = r.choice([8, 15, 30])
     edb(t, r, r.choice([20, 60, 150]) if size == "quick" else r.choice([60, 150, 300]), dom)
     t.meta["choice"] = []
-    kinds = r.sample(["single", "two", "composite", "tree", "recursive_pick"], r.randrange(1, 4))
+    kinds = r.sample(["single", "two", "composite", "tree", "recursive_pick", "agg", "agg2"], r.randrange(1, 4))
     for kind in kinds:
-        if kind == "single":
+        if kind == "agg":
+            # choice rule whose body contains an aggregate (the outer scan is a candidate for parallelisation)
+            t.decls.append(".decl pickc(x:number,c:number) choice-domain c")
+            t.rules.append({"head": ("pickc", [V("x"), V("c")]),
+                            "body": [("atom", "e1", [V("x"), V("y")]), ("agg", "count", "c", None, ("atom", "e1", [V("y"), U]))]})
+            t.meta["choice"].append({"rel": "pickc", "keys": [[1]]})
+            t.outputs.append("pickc")
+        elif kind == "agg2":
+            t.decls.append(".decl pickm(x:number,m:number) choice-domain x")
+            t.rules.append({"head": ("pickm", [V("x"), V("m")]),
+                            "body": [("atom", "e1", [V("x"), V("y")]), ("agg", "max", "m", V("w"), ("atom", "ew", [V("y"), U, V("w")]))]})
+            t.meta["choice"].append({"rel": "pickm", "keys": [[0]]})
+            t.outputs.append("pickm")
+        elif kind == "single":
             t.decls.append(".decl pick1(x:number,y:number) choice-domain x")
             t.rules.append({"head": ("pick1", [V("x"), V("y")]), "body": [("atom", "e1", [V("x"), V("y")])]})
             t.meta["choice"].append({"rel": "pick1", "keys": [[0]]})
